@@ -46,7 +46,8 @@ SESS_RULE = ("random worlds (depth<=3, boundary-sized files, long/non-ASCII name
              "distinct by hash of (config, world, stream)")
 
 SESS_ASSUME = ["the OS filesystem is seen through a double that enumerates directories in byte order, freezes the clock of "
-               "mutations and reports 4096 as the size of directories (harness/dfs.go); the model assumes the same",
+               "mutations, reports 4096 as the size of directories and two fixed, distinct instants as the change and access time of "
+               "every file (harness/dfs.go); the model assumes the same",
                "no symlinks inside the modelled world (symlink cases are judged by the direct oracle only)",
                "strings.ToLower is modelled on ASCII only"]
 
@@ -74,7 +75,10 @@ PROPS = {
     },
     "C01": {
         "jobs": [sess_job(120, 2500, world=True), {"cmd": "hostile", "quick": 150, "thorough": 6000, "timeout": 3000}],
-        "rule": SESS_RULE + "; every 4th session is replayed against a world with different surroundings of the root (non-interference oracle)",
+        "rule": SESS_RULE + "; every 4th session is replayed against a world with different surroundings of the root (non-interference oracle); "
+                "job hostile: paths assembled from '..', '.', empty elements, the names of the root's siblings, the virtual prefixes and NUL, joined by "
+                "'/' and - every 4th path - by '\\' or a mix of both (one element for this server, never a way up), incl. fixed escapes such as "
+                "'..\\R-other\\secret', run against two worlds that differ only outside the root",
         "assumptions": SESS_ASSUME,
         "partial": ["the spellings of the root (relative, '.', trailing slash, via flag/env/ini) are decided with C19 on the real binary; "
                     "generated images and key-file lookups are covered once C09-C11 views are part of the session model"],
@@ -101,7 +105,9 @@ PROPS = {
     },
     "C05": {
         "jobs": [sess_job(140, 2500, keep_ops=["create", "write", "delete", "mkdir", "rmdir"], world=True)],
-        "rule": SESS_RULE, "assumptions": SESS_ASSUME,
+        "rule": SESS_RULE + "; after every create/delete/mkdir/rmdir the set of paths below the root is walked and compared with the set before the "
+                "request: exactly the named entry appears or disappears on success, nothing on failure (oracle C05-exact; incl. mkdir of an existing "
+                "directory and below a missing parent)", "assumptions": SESS_ASSUME,
         "partial": ["which entry a successful delete/mkdir/rmdir adds or removes is Model/Fs.fs_remove / fs_mkdir, compared with the real tree after every session "
                     "(full snapshot); the theorems give the frame (no content changes, failure = nothing changed)",
                     "that generated images and decrypted views cannot be written through is decided by the hostile/sess jobs (create below a virtual prefix is "
@@ -115,7 +121,9 @@ PROPS = {
         "jobs": [sess_job(120, 2500, keep_ops=["open_dir", "dir_entry", "dir_entry_v2", "read_dir", "stat", "dir_size"]),
                  {"cmd": "links", "quick": 150, "thorough": 5000, "timeout": 3000},
                  {"cmd": "bigdir", "quick": 4, "thorough": 44, "timeout": 3000}],
-        "rule": SESS_RULE, "assumptions": SESS_ASSUME,
+        "rule": SESS_RULE + "; every STAT answer and V2 entry is also compared field by field with the harness' own stat of the file (oracles C06-stat, "
+                "C06-iter, C06-times: size, mtime, change time, access time, kind); job links: trees with symlinks to files, directories and nothing; job "
+                "bigdir: directories of thousands of entries", "assumptions": SESS_ASSUME,
         "partial": ["symlinks (resolved / dangling omitted) are outside the Coq model and judged by the direct oracle only"],
         "level_text": "Theorems C06_opendir, C06_bulk (READ_DIR = one record per statable entry, a permutation of the directory, true fields), "
                       "C06_iter (entry-by-entry enumeration yields each entry once then the end marker, any mix of V1/V2), C06_stat, C06_dirsize, C06_names.",
@@ -168,9 +176,10 @@ PROPS = {
                 "over the shared read-only subtree (opens, reads of up to 70 KB through the pooled buffers, listings, dir-size) and over its own private "
                 "writable subtree (uploads, mkdir/rmdir, delete); each client's response stream is compared with the model's prediction for that client "
                 "alone; any race-detector report is a violation; every client's session is one case (all non-trivial); job slow: 2..6 clients over "
-                "synchronous pipes, each reading its own 400 KB file of a distinct pattern with READ_FILE_CRITICAL (1..100000 bytes); in every round some "
-                "clients leave their response undrained (the server blocks in Write with the data in its transfer buffer) while the others are served, "
-                "then drain: every response must be that client's own bytes",
+                "synchronous pipes, each reading its own 400 KB file of a distinct pattern with READ_FILE and READ_FILE_CRITICAL (1..100000 bytes); in every "
+                "round some clients leave their response undrained (the server blocks in Write with the data in its transfer buffer) while the others "
+                "are served, then drain; every third round one stalled client reads a part of its answer, drops the connection and comes back on a new "
+                "one (connection churn): every response must announce and carry that client's own bytes",
         "assumptions": ["request handling is the atomic step of a schedule in the model; the Go memory model is not modelled"],
         "partial": ["the theorem covers schedules in which nothing writes; isolation of clients that write to private subtrees and freedom from data races are "
                     "decided by the -race differential only"],
@@ -185,8 +194,9 @@ PROPS = {
                 "lazily opened member files, redump image with key lookup, 3k3y image, upload/mkdir/rmdir/delete) each run once without faults, then with one "
                 "control operation of the filesystem double (open, openfile, stat, fstat, seek, readat, readdirnames, mkdir, remove ...) failing with EIO - every "
                 "index in turn in the thorough tier, a stride in the quick tier -, with every Read returning at most 1/7/512/2047 bytes, with the served file "
-                "unreadable from offsets 0/1/999/4096/20000, and with the connection ended by EOF, an unknown opcode, a truncated request or a reset at every "
-                "request boundary; after each run: no open handle, connection goroutine ended, every answer = reference answer | failure code | correct prefix + "
+                "unreadable from offsets 0/1/999/4096/20000, and with the connection ended by EOF, an unknown opcode, a truncated request, a reset, or silence "
+                "(idle / in the middle of a request, the server running with a read timeout; every boundary in the thorough tier, every third in the quick "
+                "tier) at every request boundary; after each run: no open handle, connection goroutine ended, every answer = reference answer | failure code | correct prefix + "
                 "disconnection (listings and directory sizes may omit what could not be examined, never invent or alter an entry)",
         "assumptions": SESS_ASSUME + ["a short count is legal for Read only: os.File.ReadAt retries, so the double never shortens a positional read"],
         "partial": ["goroutine termination, kernel descriptor accounting and hangs are runtime behaviour: watched by the harness (disconnect signal, "
@@ -223,7 +233,10 @@ PROPS = {
     "C17": {
         "jobs": [sess_job(60, 1500, keep_ops=["open_file", "read_cd"]),
                  {"cmd": "cdsess", "quick": 8, "thorough": 400, "timeout": 6000, "project": sess_project(keep_ops=["open_file", "read_cd"])}],
-        "rule": SESS_RULE, "assumptions": SESS_ASSUME, "partial": [],
+        "rule": SESS_RULE + "; job cdsess: one connection over several CD images - every sector size x both signatures, an image without a "
+                "signature, one of exactly 2 MiB (lower edge of the window, inclusive) and one a byte below it - with opens, CLOSEFILE and sector reads "
+                "(start != count, count 0, ranges crossing the end)", "assumptions": SESS_ASSUME,
+        "partial": ["the upper edge of the window (848 MiB) is covered by the theorem and the regenerated constants only: no image of that size is built"],
         "level_text": "Theorems C17_args, C17_read (exact user-data slices for every sector size, image, start and count in range), C17_short, C17_detect "
                       "(the detected size is the first candidate whose 16*S+24 position carries either signature; candidates/magics regenerated from the source).",
     },
@@ -330,7 +343,8 @@ PROPS["C04"] = {
              SFO_JOB],
     "rule": "job crash: the real binary (under an 8 GB address-space limit) serves a root of crafted content - 26 PARAM.SFO variants (truncated, bad magic, counts and "
             "offsets up to 2^32-1, TITLE_ID lengths 0,1,3,4,31,32,33,200, non-ASCII), 19 region-table variants (sizes 0..2047, counts 0,1,256,300,2^31,2^32-1, "
-            "reversed/overlapping/beyond-EOF regions, partial tail) each with one of 8 key-file variants and as 3k3y twins, 3k3y areas cut at 9 lengths, keys and "
+            "reversed/overlapping/beyond-EOF regions, partial tail) each with one of 16 key-file variants and as 3k3y twins, every key-file variant (empty, blank, "
+            "non-hex, binary, 1/5/15/16/17/24/32 bytes of hex, 31 digits, 10000 digits, BOM, CRLF, upper case) next to one well-formed image, 3k3y areas cut at 9 lengths, keys and "
             "images that are directories, names of 255 bytes / invalid UTF-8, 60 levels of nesting, 1200 entries in a directory, symlink loops - to sessions of six "
             "kinds in turn (every crafted file with reads at offsets up to 2^64-1 and lengths up to 2^32-1, every directory through ***PS3***/***DVD***, listings "
             "and sizes, requests without an open object, bit-flipped/truncated valid sessions, random bytes; round-robin so that every object is visited); after "
